@@ -1042,8 +1042,45 @@ func init() {
 			// Eval and its context-taking twin: both are "evaluate this one form in this
 			// environment" entry points a host operator (or the debugger, from inside a
 			// running evaluation) can call
-			obs := runDominatingRestore(c, "LOC.eval-restores", "lisp.(*LEnv).Eval", "lisp.LEnv.loc")
-			obs = append(obs, runDominatingRestore(c, "LOC.eval-restores", "lisp.(*LEnv).EvalContext", "lisp.LEnv.loc")...)
+			rawEval0 := c.LookupMethod("lisp.LEnv.eval")
+			var obs []Obligation
+			for _, entry := range []string{"lisp.(*LEnv).Eval", "lisp.(*LEnv).EvalContext"} {
+				// an entry that hands its whole job to a method of the same environment which runs the raw
+				// evaluator (`return env.evalRestoringLoc(ctx, v)`) is judged there: the loop below picks
+				// up every method that calls the raw evaluator on its own receiver
+				if efn, efd, epkg := c.LookupFunc(entry); efn != nil && efd != nil && efd.Body != nil && rawEval0 != nil && efd.Recv != nil && len(efd.Recv.List) == 1 && len(efd.Recv.List[0].Names) == 1 {
+					einfo := epkg.TypesInfo
+					recv := einfo.Defs[efd.Recv.List[0].Names[0]]
+					direct, via := false, ""
+					for _, ce := range callsIn(efd.Body, true) {
+						callee := originOf(Callee(einfo, ce))
+						if callee == rawEval0 {
+							direct = true
+							continue
+						}
+						se, ok := ast.Unparen(ce.Fun).(*ast.SelectorExpr)
+						if !ok || callee == nil || recv == nil || identObj(einfo, se.X) != recv {
+							continue
+						}
+						if hd := c.declOf[callee]; hd != nil && hd.Body != nil && hd.Recv != nil && len(hd.Recv.List) == 1 && len(hd.Recv.List[0].Names) == 1 {
+							hinfo := c.pkgOf[hd].TypesInfo
+							hrecv := hinfo.Defs[hd.Recv.List[0].Names[0]]
+							for _, hc := range callsIn(hd.Body, true) {
+								if originOf(Callee(hinfo, hc)) == rawEval0 {
+									if hs, ok := ast.Unparen(hc.Fun).(*ast.SelectorExpr); ok && hrecv != nil && identObj(hinfo, hs.X) == hrecv {
+										via = FuncName(callee)
+									}
+								}
+							}
+						}
+					}
+					if !direct && via != "" {
+						obs = append(obs, mkOb(c, "LOC.eval-restores", FuncUnit{efn, efd, epkg}, "delegates the evaluation", efd, Proved, "runs the raw evaluator only through "+via+" on the same environment, which is judged by this rule", false))
+						continue
+					}
+				}
+				obs = append(obs, runDominatingRestore(c, "LOC.eval-restores", entry, "lisp.LEnv.loc")...)
+			}
 			// ... and every other method of LEnv that runs the raw evaluator on ITS OWN environment
 			// (load, the funnel of every Load* entry point, evaluates the forms of a file in the
 			// environment it was called on): the evaluator moves that environment's location to each
